@@ -14,6 +14,7 @@
 #include <qhttpengine/proxyhandler.h>
 #include <qhttpengine/socket.h>
 using namespace QHttpEngine;
+extern long long g_vclock_offset_ns;
 void urlOracle(const QByteArray &stream, Out &out);
 
 void runProxy(const Scn &scn, Out &out)
@@ -73,6 +74,12 @@ void runProxy(const Scn &scn, Out &out)
     int k = 0;
     foreach (const QString &t, events) {
         QStringList p = t.split(':');
+        if (p[0] == "advance") {
+            // time passes (virtual: every timer due by then fires at the next turn); not an event of the model, which has
+            // no timers - nothing the proxy does may depend on how long an exchange takes
+            g_vclock_offset_ns += p[1].toLongLong() * 1000000LL;
+            continue;
+        }
         if (!(k > 0 && !sock)) *obs << QString("e:%1").arg(k);
         ++k;
         if (p[0] == "new") {
